@@ -113,7 +113,7 @@ class C05(Sim):
             "interleaving hash); non-trivial = at least one accepted write and one container growth with an attribute alive")
     FAULT_KINDS = ["reject"]
     PROBES = ["index==size", "mutate_default", "extend_by_container", "rejected_write", "read_default", "grow_with_dense",
-              "attr_clear", "container_clear", "widening_write", "vector_attr", "custom_default", "corner_container", "copy_entry"]
+              "attr_clear", "container_clear", "widening_write", "vector_attr", "custom_default", "corner_container", "copy_entry", "big_int"]
     QUICK_RUNS = 8000
     THOROUGH_RUNS = 1500000
     BLOCK = 100
@@ -195,6 +195,14 @@ class C05(Sim):
     def _gen_value(self, r, t, arity):
         """a well-formed value description of scalar type t and the given arity"""
         w = r.choice(WRAPS[t])
+        if t == "int" and r.chance(0.08):
+            # integers beyond 32 bits (Python ints / int64 only): an int attribute holds them in either storage
+            big = r.choice([2 ** 31 + 5, -2 ** 40 + 1, 2 ** 52 + 1, -2 ** 31 - 7])
+            w = r.choice(["py", "np.int64"])
+            self.probes["big_int"] += 1
+            if arity == 1:
+                return {"t": t, "w": w, "v": big}
+            return {"t": t, "w": w if w == "py" else "py", "seq": r.choice(["list", "tuple", "nparr"]), "v": [big] + [self._gen_scalar(r, t) for _ in range(arity - 1)]}
         if arity == 1:
             return {"t": t, "w": w, "v": enc_scalar(t, self._gen_scalar(r, t))}
         seq = r.choice(["list", "tuple", "nparr", "vec", "list"])
